@@ -277,16 +277,6 @@ func (m msgServer) Acknowledgement(
 ) (*packettypes.MsgAcknowledgementResponse, error) {
 	ctx := sdk.UnwrapSDKContext(goCtx)
 
-	// Retrieve callbacks from router
-	cbs, ok := m.k.RoutingKeeper.Router.GetRoute(routingtypes.Port(msg.Packet.Port))
-	if !ok {
-		return nil, errorsmod.Wrapf(
-			routingtypes.ErrInvalidRoute,
-			"route not found to module: %s",
-			msg.Packet.Port,
-		)
-	}
-
 	// Perform TAO verification
 	if err := m.k.PacketKeeper.AcknowledgePacket(ctx, msg.Packet, msg.Acknowledgement, msg.ProofAcked, msg.ProofHeight); err != nil {
 		return nil, errorsmod.Wrap(
@@ -295,13 +285,25 @@ func (m msgServer) Acknowledgement(
 		)
 	}
 
-	// Perform application logic callback
-	_, err := cbs.OnAcknowledgementPacket(ctx, msg.Packet, msg.Acknowledgement)
-	if err != nil {
-		return nil, errorsmod.Wrap(
-			err,
-			"acknowledge packet callback failed",
-		)
+	// only the source chain runs the application callback; a relay chain just forwards the acknowledgement
+	if msg.Packet.GetSourceChain() == m.k.ClientKeeper.GetChainName(ctx) {
+		// Retrieve callbacks from router
+		cbs, ok := m.k.RoutingKeeper.Router.GetRoute(routingtypes.Port(msg.Packet.Port))
+		if !ok {
+			return nil, errorsmod.Wrapf(
+				routingtypes.ErrInvalidRoute,
+				"route not found to module: %s",
+				msg.Packet.Port,
+			)
+		}
+
+		// Perform application logic callback
+		if _, err := cbs.OnAcknowledgementPacket(ctx, msg.Packet, msg.Acknowledgement); err != nil {
+			return nil, errorsmod.Wrap(
+				err,
+				"acknowledge packet callback failed",
+			)
+		}
 	}
 
 	defer func() {
